@@ -74,6 +74,7 @@ type VC struct {
 	heapNames     map[string]Sort   // heap array name -> sort
 	heapOrder     []string
 	epochCtr      int
+	decodeBytes   bool // the unit's contract mentions u16/u32/u64 (or b32/b64/w32...): ByteOrder.UintN results are tied to the bytes
 	logWrites     bool // the unit's contract mentions wrote(): io.Writer.Write records byte contents
 	capStack      []*captureBuf
 	valK, valV    map[string]Sort
